@@ -24,7 +24,7 @@ PROPS = {
         'rule': 'one case = one G-SV program (1-3 design elements, adversarial identifiers, random layout) with the fact multiset the generator '
                 'expects; non-trivial = accepted and fact multiset + token/leaf check evaluated; distinct by hash of text',
         'evaluations_key': 'programs',
-        'floors': {'quick': {'accepted': 2000, 'expected_facts': 20000, 'tokens_leaf_checked': 80000, 'fact_sets_equal': 1500},
+        'floors': {'quick': {'accepted': 2000, 'programs_behind_directives': 100, 'expected_facts': 20000, 'tokens_leaf_checked': 80000, 'fact_sets_equal': 1500},
                    'thorough': {'accepted': 55000, 'expected_facts': 500000}},
         'technique': 'runtime monitor with executable reference: grammar-directed sentence generator whose expected (node kind, identifier) facts are compared with facts collected from the returned tree; token spans known by construction checked against leaves',
         'level_text': 'A sentence generator for the covered Annex A subset emits token lists with known byte spans and the facts each construct must contribute; the real parser is run on every sentence and a monitor compares acceptance, the fact multiset and identifier/keyword leaves. Sampled, size-bounded.',
@@ -50,7 +50,7 @@ PROPS = {
                 'inputs; raw-parser calls refill one buffer so texts share their address) followed by a probe that is re-run alone on a fresh OS thread; '
                 'non-trivial = every case (the probe always runs on a thread with residue); distinct by hash of (history texts, probe, entry)',
         'evaluations_key': 'histories',
-        'floors': {'quick': {'histories': 3000, 'probes_on_dirty_state': 2500, 'probes_with_version_residue': 200, 'probes_at_reused_address': 400},
+        'floors': {'quick': {'histories': 3000, 'probes_after_calls_with_other_include_paths': 100, 'probes_editing_the_buffer_in_place': 100, 'probes_on_dirty_state': 2500, 'probes_with_version_residue': 200, 'probes_at_reused_address': 400},
                    'thorough': {'histories': 90000, 'probes_with_version_residue': 5000}},
         'technique': 'runtime monitor: differential re-execution of the probe call on a fresh thread (fresh thread-locals) against the call made after a recorded history; hook snapshot records the residue state the probe ran under',
         'level_text': 'Thousands of random call histories that leave real residue in the thread-local parser state (observed through the snapshot hook and listed in the evidence) are followed by a probe whose canonical result is compared with the same call on a fresh thread.',
@@ -81,7 +81,7 @@ PROPS = {
         'rule': 'one case = one source (shared tree workload plus token/byte-mutated and valid+broken concatenations); incomplete mode must not return Error::Parse, '
                 'must tile a prefix that strict parsing accepts as the same tree, must equal strict mode where strict accepts, and must ignore a junk suffix; distinct by hash of (text, grammar)',
         'evaluations_key': 'inputs',
-        'floors': {'quick': {'incomplete_trees': 3000, 'proper_prefix_trees': 1000, 'strict_accepted': 1200, 'junk_suffix_checked': 1200, 'prefix_reparsed': 3000},
+        'floors': {'quick': {'incomplete_trees': 3000, 'inputs_with_keywords_directive_in_dead_branch': 100, 'proper_prefix_trees': 1000, 'strict_accepted': 1200, 'junk_suffix_checked': 1200, 'prefix_reparsed': 3000},
                    'thorough': {'incomplete_trees': 80000, 'proper_prefix_trees': 25000}},
         'technique': 'runtime monitor: metamorphic/differential comparison of incomplete-mode and strict-mode executions (exact and layout-free tree skeletons) plus the tiling monitor in prefix mode',
         'level_text': 'For every generated or mutated input both modes of the real parser are run and compared; the covered prefix is re-parsed strictly to show it consists of complete descriptions.',
@@ -94,7 +94,7 @@ PROPS = {
                 'non-trivial = at least one run evicted entries; distinct by hash of (text, mode); the first 3000 case slots are the fixed catalogue '
                 '(every vendored corpus program + the memo-stress family at fixed sizes, capacities >= 8), whose known capacity dependences are listed input by input',
         'evaluations_key': 'runs',
-        'floors': {'quick': {'runs': 9000, 'runs_with_evictions': 5000, 'runs_at_default': 1500, 'runs_at_16': 600, 'runs_at_1': 50},
+        'floors': {'quick': {'runs': 9000, 'catalogue_inputs': 2000, 'catalogue_runs_with_evictions': 5000, 'in_place_edits_at_same_address': 100, 'runs_with_evictions': 5000, 'runs_at_default': 1500, 'runs_at_16': 600, 'runs_at_1': 50},
                    'thorough': {'runs': 200000, 'runs_with_evictions': 100000}},
         'technique': 'runtime monitor: differential execution of the real parser under memo capacities set through the storage hook; hook counters (evictions, guard-mismatched hits, version-stack events) classify a mismatch against the known causes',
         'level_text': 'The same text is parsed at up to twelve memo capacities through the hook-configurable table and every result is compared with the unbounded one; eviction counts in the evidence show the sweep really evicted.',
@@ -148,7 +148,7 @@ PROPS = {
         'rule': 'one case = either a directive-free lexical soup over ~75 fragment kinds / a directive-free corpus program (byte identity, identity origin vector, rejection only with one of the three permitted faults) '
                 'or a G-PP program whose successful output is preprocessed again with the same initial defines (fixed point); non-trivial = identical output with all origins checked, or fixed point reached; distinct by hash of source',
         'evaluations_key': 'cases',
-        'floors': {'quick': {'identity_inputs': 60000, 'identical': 35000, 'origin_positions_checked': 3000000, 'rejected_with_permitted_fault': 5000, 'fixed_point_inputs': 20000, 'fixed_points_with_kept_directives': 8000},
+        'floors': {'quick': {'identity_inputs': 60000, 'identical': 35000, 'origin_positions_checked': 3000000, 'rejected_with_permitted_fault': 5000, 'fixed_point_inputs': 20000, 'fixed_point_inputs_strip_comments': 1000, 'fixed_points_with_kept_directives': 8000},
                    'thorough': {'identity_inputs': 1500000, 'fixed_point_inputs': 500000}},
         'technique': 'runtime monitor: byte-for-byte identity and identity-origin oracle on generated directive-free text, idempotence (metamorphic) oracle on outputs of successful runs; exact executable model of finding K1 for attribution',
         'level_text': 'The real preprocessor is run on tens of thousands of directive-free soups and its output and origin map are compared with the input itself; outputs of successful runs are fed back and must reproduce themselves.',
@@ -174,7 +174,7 @@ PROPS = {
                 'distinct by (family, parameter)',
         'evaluations_key': 'cases_run',
         'dead_worker_is_violation': True,
-        'floors': {'quick': {'cases_run': 400, 'family:macro-chain': 80, 'family:include-chain': 80, 'family:macro-cycle': 8, 'family:include-cycle': 5, 'family:mixed-chain': 32,
+        'floors': {'quick': {'cases_run': 400, 'cases_via_parse_sv': 20, 'cases_via_parse_sv_str': 20, 'family:macro-chain': 80, 'family:include-chain': 80, 'family:macro-cycle': 8, 'family:include-cycle': 5, 'family:mixed-chain': 32,
                              'family:macro-include-cycle': 6, 'legal_depths_ok': 150, 'limits_reported': 80},
                    'thorough': {'cases_run': 6000}},
         'technique': 'runtime monitor over constructed recursion families: expected outcome by construction, a logical frame bound injected through the preprocess_str entry hook turns runaway recursion into a caught, replayable violation; process supervision catches stack overflow',
@@ -213,7 +213,7 @@ PROPS = {
         'title': 'entry points agree',
         'rule': 'one case = one file written to the worker directory (tree workload, include + comment + macro-from-include, G-PP program, rejected program, file faults, library map, junk suffix) run through all members of the parse family for the 4 (ignore_include, allow_incomplete) values and through preprocess / preprocess_str for the 4 (strip_comments, ignore_include) values: 16 comparisons of canonical results per case; distinct by hash of (contents, kind)',
         'evaluations_key': 'comparisons',
-        'floors': {'quick': {'inputs': 11000, 'comparisons': 170000, 'accepted_configs': 10000, 'flag_sensitive_inputs': 1500, 'kind:file-fault': 800, 'kind:lib': 800},
+        'floors': {'quick': {'inputs': 11000, 'inputs_rewritten_in_place': 500, 'comparisons': 170000, 'accepted_configs': 10000, 'flag_sensitive_inputs': 1500, 'kind:file-fault': 800, 'kind:lib': 800},
                    'thorough': {'inputs': 280000}},
         'technique': 'runtime monitor: differential execution of the entry points that the property says must agree, on the same file with the same flags, comparing exact tree skeleton + origins + define table (with origins) or the error Debug',
         'level_text': 'Each generated file is pushed through every member of the entry-point family under every flag combination and the canonical results are compared; inputs are chosen so that swapped or dropped flags change at least one result.',
@@ -225,7 +225,7 @@ PROPS = {
         'rule': 'one case = a pair (original, re-laid-out) with identical token sequences: G-SV programs (plain layout vs random runs of blanks, tabs, form feeds, CR/LF, both comment kinds, 12 neutral directives, `define/`undef pieces, `resetall between descriptions), token-mutated G-SV programs (mostly rejected) and corpus programs re-laid-out through the lexer; '
                 'each pair is compared on the raw parser and through parse_sv_str (acceptance and layout-free skeleton); distinct by hash of the pair',
         'evaluations_key': 'comparisons',
-        'floors': {'quick': {'pairs': 5000, 'comparisons': 10000, 'both_accepted': 3000, 'both_rejected': 2000, 'pairs_with_form_feed': 2500, 'pairs_with_directives': 4000},
+        'floors': {'quick': {'pairs': 5000, 'pairs_after_a_rejected_call': 200, 'comparisons': 10000, 'both_accepted': 3000, 'both_rejected': 2000, 'pairs_with_form_feed': 2500, 'pairs_with_directives': 4000},
                    'thorough': {'pairs': 120000}},
         'technique': 'runtime monitor: metamorphic comparison of two executions of the real parser on sources that differ only in inter-token trivia, using layout-free tree skeletons',
         'level_text': 'For thousands of accepted and rejected programs every inter-token white-space run is replaced by a random non-empty trivia run (boundary rules in DESIGN C12 keep token boundaries intact) and acceptance plus the layout-free skeleton of both executions are compared.',
@@ -237,7 +237,7 @@ PROPS = {
         'rule': 'one case = (i) a batch of the exhaustive sweep all 248 words x 8 version specifiers x 3 name positions (enumerated completely in every run), or (ii) a program of 1-3 Verilog-1995 modules inside nested / sequential `begin_keywords regions, preceded by kept directives incl. `resetall, with one identifier at a name position replaced by a word reserved in the set in force (must be rejected) or reserved only later (must be accepted as that simple identifier), or '
                 '(iii) the tree monitor (version stack replayed over tree order, every simple identifier looked up in the vendored tables) on accepted trees of the shared workload and of every base program; distinct by hash of the mutant',
         'evaluations_key': 'cases',
-        'floors': {'quick': {'sweep_cases': 5952, 'region_programs': 4500, 'mutation_pairs': 4000, 'reserved_word_rejected': 2500, 'later_word_accepted_as_identifier': 800, 'identifiers_checked': 150000, 'trees_scanned': 1000},
+        'floors': {'quick': {'sweep_cases': 5952, 'region_programs': 4500, 'mutation_pairs': 4000, 'mutation_pairs_after_an_open_region': 200, 'reserved_word_rejected': 2500, 'later_word_accepted_as_identifier': 800, 'identifiers_checked': 150000, 'trees_scanned': 1000},
                    'thorough': {'sweep_cases': 5952, 'mutation_pairs': 120000}},
         'technique': 'runtime monitor: keyword-set replay over every returned tree against vendored reference tables, plus mutation pairs (reserved / not-yet-reserved word at an identifier position) with expectation from the tables; exhaustive word x version x position sweep',
         'level_text': 'A monitor replays the version stack over each accepted tree and looks every identifier up in reference tables vendored from the pinned keywords.rs (structure cross-checked at load), and mutation pairs put reserved and not-yet-reserved words at name positions under all eight specifiers.',
@@ -263,7 +263,7 @@ PROPS = {
         'rule': 'one case = one G-PP program (single file or include graph of up to 4 real files; conditionals, object- and function-like usages incl. empty expansions, kept directives, `__FILE__/`__LINE__, caller-supplied defines) whose expected tokens carry a provenance (copied from file:offset / expansion of macro M defined in file F / synthesised); '
                 'every output byte is looked up with origin() and compared with its provenance class, every white-space/comment byte must have an origin, and up to 40 flip experiments per program (one source byte changed, structure kept) identify interventionally which output bytes were copied from that byte; 1 case in 8 compares SyntaxTree::get_origin with origin(offset) on every leaf; distinct by hash of sources',
         'evaluations_key': 'cases',
-        'floors': {'quick': {'programs_checked': 12000, 'positions_checked': 600000, 'copied_token_bytes': 400000, 'expansion_token_bytes': 18000, 'synthesised_token_bytes': 12000, 'gap_bytes': 100000,
+        'floors': {'quick': {'programs_checked': 12000, 'origin_bytes_compared': 300000, 'positions_checked': 600000, 'copied_token_bytes': 400000, 'expansion_token_bytes': 18000, 'synthesised_token_bytes': 12000, 'gap_bytes': 100000,
                              'flip_experiments': 250000, 'flip_changed_positions': 150000, 'get_origin_leaves': 80000},
                    'thorough': {'programs_checked': 300000, 'flip_experiments': 6000000}},
         'technique': 'runtime monitor: per-position origin lookups compared with provenance computed by the reference semantics, plus interventional flip experiments (perturb one source byte, observe which output bytes change) as ground truth for "copied from"',
